@@ -53,7 +53,13 @@ def run(tier, replay=None):
     bfs = cases[:nbfs]
     for c in cases:
         c["id"] = hist_id(c["hist"])
-    C.log(f"[{PID}] {len(bfs)} exhaustive histories + {len(cases) - len(bfs)} simulated long ones")
+    # capture analysis by syntactic position (GenCapture.tla, exhaustive product)
+    cap, gc = gen.run_generator("GenCapture", work / "capture", dict(), timeout=300)
+    for c in cap:
+        c["id"] = f"capture:{c['pos']}:{'modx' if c['modx'] else 'nomodx'}"
+        c["hist"] = [dict(op="call")]
+    cases += cap
+    C.log(f"[{PID}] {len(bfs)} exhaustive histories + {len(cases) - len(bfs) - len(cap)} simulated long ones + {len(cap)} capture-position programs")
     dis, skips, st = l1.run_cases(binary, work, cases)
     # the compiled code on the value machine MSVMV: per-instruction trace validation of the interpreter and
     # translation validation of the compiler against MSLang (programs outside the machine's fragment are counted)
@@ -76,8 +82,8 @@ def run(tier, replay=None):
                       dict(case=c["id"], verdict=d, files={"main.ms": c["src"]}, stderr=[o["err"] for o in c["obs"]]))
     rep.coverage = dict(**vcov, traces_validated_against_impl=vres["recorded"],
         evaluations=len(cases), distinct_nontrivial=sum(1 for c in cases if any(o["op"] == "call" for o in c["hist"])),
-        rule="GenClos.tla: operation histories over 104 operations (8 closure instances - module level, two calls of one maker, nested maker, shadowing middle function, captured parameter, two iterations of a loop body - x 4 closure kinds (reader, modify-writer, local writer, typed local writer) x 3 call routes (direct, through a caller owning a same-named local, through a plain caller), owner assignment, is_closure): every single operation, every ordered pair (thorough) or a seeded sample of the pairs (quick), plus seeded -simulate histories up to length 8 (quick) / 12 (thorough); non-trivial = contains at least one closure call; distinct by history",
-        enumerated_len_le_2=enumerated, singles=len(singles), pairs_run=len(pairs),
+        rule="GenClos.tla: operation histories over 104 operations (8 closure instances - module level, two calls of one maker, nested maker, shadowing middle function, captured parameter, two iterations of a loop body - x 4 closure kinds (reader, modify-writer, local writer, typed local writer) x 3 call routes (direct, through a caller owning a same-named local, through a plain caller), owner assignment, is_closure): every single operation, every ordered pair (thorough) or a seeded sample of the pairs (quick), plus seeded -simulate histories up to length 8 (quick) / 12 (thorough); non-trivial = contains at least one closure call; distinct by history; plus GenCapture.tla: 30 syntactic positions of the single use of a captured variable x {module-level x present, absent}, each called directly, through a caller owning a same-named local and through a plain caller after the defining frame is gone",
+        capture_position_programs=len(cap), enumerated_len_le_2=enumerated, singles=len(singles), pairs_run=len(pairs),
         samples=[dict(history=c["id"], observed=c["obs"][0]["out"]) for c in cases[:: max(1, len(cases) // 3)][:3]],
         states=st["states"] + vres["states"] + g.distinct, transitions=st["transitions"] + vres["transitions"] + g.generated, out_of_model=len(skips),
         rejected_by_compiler=sum(1 for c in cases if c["rejected"]), executions=2 * len(cases), exhaustive_len=1 if tier == "quick" else 2,
